@@ -306,6 +306,9 @@ func (r *Run) writeReplay(v *Violation) string {
 	}, "", " ")
 	h := sha1.Sum(b)
 	dir := filepath.Join(Root(), "replays")
+	if d := os.Getenv("VERIF_EVIDENCE_DIR"); d != "" {
+		dir = filepath.Join(d, "replays")
+	}
 	os.MkdirAll(dir, 0o755)
 	p := filepath.Join(dir, r.Prop+"-"+hex.EncodeToString(h[:6])+".json")
 	os.WriteFile(p, b, 0o644)
@@ -366,8 +369,12 @@ func (r *Run) Finish() {
 	r.mu.Unlock()
 
 	b, _ := json.MarshalIndent(ev, "", " ")
-	os.MkdirAll(filepath.Join(Root(), "evidence"), 0o755)
-	os.WriteFile(filepath.Join(Root(), "evidence", r.Prop+".json"), b, 0o644)
+	evDir := filepath.Join(Root(), "evidence")
+	if d := os.Getenv("VERIF_EVIDENCE_DIR"); d != "" {
+		evDir = d // triage runs against a scratch copy of the repository keep their evidence apart
+	}
+	os.MkdirAll(evDir, 0o755)
+	os.WriteFile(filepath.Join(evDir, r.Prop+".json"), b, 0o644)
 
 	ids := make([]string, 0, len(r.matched))
 	for id := range r.matched {
